@@ -139,9 +139,8 @@ def intervalOverlapCheck(
         timeOverlapFlag = overlapTime >= timeThreshold
         overlapFlag = timeOverlapFlag
 
-    overlapFlag = (
-        overlapFlag or boundaryOverlapFlag or percentOverlapFlag or timeOverlapFlag
-    )
+    # overlapFlag already reflects the percent and time thresholds (both must hold)
+    overlapFlag = overlapFlag or boundaryOverlapFlag
 
     return overlapFlag
 
